@@ -28,8 +28,15 @@ package udp
 
 // Outbound datagram: one packet whose length field is header + payload (C06, C11). The
 // length must be representable in the 16-bit field.
+// The header carries the socket's ports, and the packet goes out on the route given, with the
+// hop limit given and the very payload views given. (That the checksum written verifies is not
+// an obligation here: UDP.CalculateChecksum and header.Checksum are proved under C15/C06, their
+// composition over the payload views is not.)
 //@ func sendUDP props C06 C11
 //@   requires r != nil && 0 <= data.size && data.size <= 0xffff - header.UDPMinimumSize
+//@   at_call WritePacket requires recv == r && protocol == ProtocolNumber && ttl == caller(ttl) && len(hdr.buf) - hdr.usedIdx == 8
+//@             && be16(hdr.buf, hdr.usedIdx) == localPort && be16(hdr.buf, hdr.usedIdx + 2) == remotePort
+//@             && payload.size == data.size && arr(payload.views) == arr(data.views) && off(payload.views) == off(data.views) && len(payload.views) == len(data.views)
 //@   loop 1 invariant -1 <= rangeindex && rangeindex < len(data.views)
 //@   modifies everything()
 
